@@ -460,6 +460,16 @@ func (m *memFS) openFile(name string, flag int, perm fs.FileMode, linkCount int)
 	return newMemFile(anode, name, m, flag), nil
 }
 
+// entryMode is the mode of the node made for a tar entry: the permission bits of the header's mode
+// field and the file type of its typeflag. The mode field can carry file-type bits of its own (c_ISDIR,
+// c_ISLNK, ...), which FileInfo().Mode() decodes as well; they can contradict the typeflag, and a
+// regular-file entry must not become a node that says it is a directory but has no children.
+func entryMode(h *tar.Header) fs.FileMode {
+	hdr := *h
+	hdr.Mode &= 0o7777
+	return hdr.FileInfo().Mode()
+}
+
 func (m *memFS) writeHeader(name string, te tarEntry) (bool, error) {
 	parent := filepath.Dir(name)
 	base := filepath.Base(name)
@@ -486,7 +496,7 @@ func (m *memFS) writeHeader(name string, te tarEntry) (bool, error) {
 		// create the file
 		anode := &node{
 			name:       base,
-			mode:       te.header.FileInfo().Mode(),
+			mode:       entryMode(&te.header),
 			dir:        false,
 			modTime:    te.header.ModTime,
 			linkTarget: te.header.Linkname,
@@ -556,7 +566,7 @@ func (m *memFS) writeHeader(name string, te tarEntry) (bool, error) {
 
 	anode := &node{
 		name:       base,
-		mode:       te.header.FileInfo().Mode(),
+		mode:       entryMode(&te.header),
 		dir:        false,
 		modTime:    te.header.ModTime,
 		linkTarget: te.header.Linkname,
